@@ -44,7 +44,24 @@ func TestDump(t *testing.T) {
 		}
 		e := New(prog.SPkg)
 		e.Pure = pureOf(an)
+		if a := os.Getenv("ASSUME"); a != "" {
+			e.AssumeField = map[string]int64{}
+			for _, kv := range strings.Fields(a) {
+				var v int64
+				i := strings.Index(kv, "=")
+				fmt.Sscanf(kv[i+1:], "%d", &v)
+				e.AssumeField[kv[:i]] = v
+			}
+		}
+		if os.Getenv("NOWRAP") != "" {
+			e.NoWrap = map[*ssa.Function]bool{fn: true}
+		}
 		res := e.EvalRoot(fn)
+		if ck := os.Getenv("COUNT"); ck != "" {
+			for _, st := range res.LoopSteps(ck) {
+				fmt.Printf("   loop step %s += %s\n", st.Var, st.Delta.Key())
+			}
+		}
 		fmt.Printf("== %s: returns=%d nil-returns=%d mutates=%q\n", spec, res.NRet, res.NRetNil, res.Mutates)
 		for i := range res.Nil {
 			fmt.Printf("   result %d (nil error): %s\n   result %d (all):       %s\n", i, valKey(res.Nil[i]), i, valKey(res.All[i]))
